@@ -52,7 +52,15 @@ func Escape(str string, isBytes bool) (string, error) {
 					buf = append(buf, `\\`...)
 				}
 			default:
-				buf = append(buf, byte(c))
+				if c < 0x20 || c == 0x7f {
+					// Other control characters are byte-escaped (a raw carriage return
+					// would be turned into a newline when the text is read back).
+					buf = append(buf, `\x`...)
+					buf = append(buf, hexdigit(byte(c>>4)))
+					buf = append(buf, hexdigit(byte(c&0xf)))
+				} else {
+					buf = append(buf, byte(c))
+				}
 			}
 			str = str[1:]
 			continue
